@@ -206,8 +206,15 @@ def main(pid, tier, seed, replay_path=None):
         viol.append(path)
         rc = 1
     elif not po["ok"]:
-        path = cl.write_nofail_replay(pid, "proof obligations of Properties_%s.v (%d of %d)" % (pid, po["discharged"], po["obligations"]), po["log"])
+        extra = ""
+        if idx_diff:
+            r = idx_diff[0]
+            extra = "\n\nthe hour tables of the implementation also differ from the model's on %d of %d datasets; first: %s\n  impl : %s\n  model: %s" % (
+                len(idx_diff), len(idx), r["case"], r["impl"][:600], r["model"][:600])
+        path = cl.write_nofail_replay(pid, "proof obligations of Properties_%s.v (%d of %d)" % (pid, po["discharged"], po["obligations"]), po["log"] + extra)
         print("VIOLATION property=%s replay=%s no-failing-input-found" % (pid, path))
+        if idx_diff:
+            print("  (hour tables differ from the model's on %d of %d datasets; no shifted pair disagreed)" % (len(idx_diff), len(idx)))
         viol.append(path)
         rc = 1
     elif idx_diff or diffs:
@@ -229,8 +236,8 @@ def main(pid, tier, seed, replay_path=None):
                correspondence_disagreements=len(diffs), exhaustive=False)
     cl.write_evidence(pid, tier, seed, "proof", cov, ["index half proved; whole-pipeline shift relation is exercised on the implementation (metamorphic), see open_statements"],
                       time.time() - t0, len(viol))
-    print("%s %s: obligations %d/%d, %d shifted evaluations (%d successes), %d index tables, %d violations, %.1fs" %
-          (pid, tier, po["discharged"], po["obligations"], evals, len(nontriv), len(idx), len(fails), time.time() - t0))
+    print("%s %s: obligations %d/%d, %d shifted evaluations (%d successes), %d index tables (%d differ from the model), %d violations, %.1fs" %
+          (pid, tier, po["discharged"], po["obligations"], evals, len(nontriv), len(idx), len(idx_diff), len(fails), time.time() - t0))
     return rc
 
 
